@@ -32,7 +32,7 @@ MIN_REACH = {
     "crops_given_a_size_and_a_count_that_agree": {"quick": 20, "thorough": 60},
     "farmers_that_are_instances_of_a_user_subclass": {"quick": 10, "thorough": 60},
     "sows_of_two_thousand_and_more_settings": {"quick": 3, "thorough": 4},
-    "resows_of_count_crops_whose_first_sow_divided_evenly": {"quick": 12, "thorough": 40},
+    "resows_of_count_crops_whose_first_sow_divided_evenly": {"quick": 9, "thorough": 40},
     "reloads_checked": {"quick": 300, "thorough": 3000},
     "resows_accepted": {"quick": 15, "thorough": 60},
     "resows_refused": {"quick": 15, "thorough": 60},
